@@ -23,7 +23,7 @@ OPTS = {
     "max_conns": 3, "max_reqs": 4, "p_expect_run": 0.25,
     "send_bytes": [18000, 1000, 9, 1], "watermark": [16777216, 20000, 1000, 50, 1, 0],
     "extra_sizes": ("send_bytes", "watermark", "sendbuf_len"),
-    "p_write": 0.3,
+    "p_write": 0.3, "p_halfclose": 0.12,
 }
 
 
@@ -70,7 +70,37 @@ def run_one(tapes, tier, scenario=None):
         if idle:
             lost.append((len(d.queue), idle, k.seq))
 
-    k.on_all_blocked = on_all_blocked
+    asleep = []
+
+    def loop_asleep_with_work(k):
+        """every thread is blocked.  If the I/O thread sits in its (infinite) poll although a connection has
+        output the loop itself would send now - the backlog of a running request has reached send_bytes, or no
+        request is running and something is pending or a close is due - then nobody woke it after that output
+        was left: delivery waits for whatever happens next (the application's next step, the poll timeout)."""
+        if asleep:
+            return
+        io = sim.io_thread
+        if io is None or not io.alive or io.blocked is None or str(io.blocked[2]) not in ("poll", "select"):
+            return
+        for cid, ch in sim.chan_by_cid.items():
+            sk = sim.conns.get(cid)
+            if sk is None or sk.closed or not ch.connected or not sk.w_ready() or sk.rst:
+                continue
+            pend = ch.total_outbufs_len
+            if ch.requests:
+                due = pend > 0 and pend >= ch.adj.send_bytes
+            else:
+                due = pend > 0 or ch.will_close or ch.close_when_flushed
+            if due:
+                asleep.append((cid, pend, len(ch.requests), ch.will_close, ch.close_when_flushed, k.seq,
+                               [(t.name, str(t.blocked[2]) if t.blocked else None) for t in k.threads if t.alive]))
+                return
+
+    def on_all_blocked_both(k):
+        on_all_blocked(k)
+        loop_asleep_with_work(k)
+
+    k.on_all_blocked = on_all_blocked_both
     fault = sc.get("fault")
     if fault:
         import errno as _errno
@@ -88,6 +118,10 @@ def run_one(tapes, tier, scenario=None):
     if lost:
         res.v("lost_wakeup", "idle_worker_with_queued_request", "all threads blocked at seq %d with %d task(s) in the dispatcher queue while worker(s) %r sleep on the queue condition" % (
             lost[0][2], lost[0][0], lost[0][1]))
+    if asleep:
+        a = asleep[0]
+        res.v("lost_wakeup", "loop_asleep_with_sendable_output", "all threads blocked at seq %d while conn %d has %d bytes pending (requests queued %d, will_close %s, close_when_flushed %s, send_bytes %d), its socket is writable and the I/O thread sleeps in its poll without having been woken; threads %r" % (
+            a[5], a[0], a[1], a[2], a[3], a[4], sc["send_bytes"], a[6]))
     if k.livelock:
         res.v("livelock", "io_spin" + feat, "I/O thread spins without progress: %r; channels %r" % (
             [e for e in k.history[-3:]], snap.get("chans")))
